@@ -22,7 +22,7 @@ func init() {
 				"NOT decided: that cropped fields are prefixes of the originals beyond the shape of cropString; the <= 128 arithmetic itself (a linear invariant, not derived).",
 			RuleText:    "one obligation for the language equivalence (states of the product automaton explored are reported), one per exit of the two size-bounded functions, per header read, per FunctionError literal, per cause source, per budget constant/guard",
 			Assumptions: append([]string{"regexp/syntax compiles the pattern as package regexp does; only begin/end-of-text assertions occur (anything else makes the check fail rather than guess)"}, trusted...),
-			MinObs:      30,
+			MinObs:      27,
 		},
 		Run: runC20,
 	})
@@ -62,7 +62,13 @@ func patternUsedBy(c *report.Ctx, f *ssa.Function) (pat string, site ssa.CallIns
 			return "", call, "receiver is not a package-level regexp"
 		}
 		// find the initialiser store
-		for _, h := range repoFuncs(c) {
+		cands := append([]*ssa.Function(nil), repoFuncs(c)...)
+		for _, sp := range c.P.SSAPkgs {
+			if ini := sp.Func("init"); ini != nil {
+				cands = append(cands, ini) // `var re = regexp.MustCompile(...)` is stored by the package initialiser
+			}
+		}
+		for _, h := range cands {
 			for _, st := range an.GlobalStores(h, g) {
 				if cl, _ := an.CallOf(st.Val); cl != nil && (an.Callee(cl) == "regexp.MustCompile") {
 					if s, ok := an.ConstString(cl.Call.Args[0]); ok {
